@@ -94,7 +94,9 @@ class C01(Prop):
         "ports (termination tokens interleaved at any legal position), a depth-1 gather emits exactly one list token "
         "with the original tag holding the elements in original order, then terminates COMPLETED (C01_roundtrip); the "
         "same for any number of concurrently gathered lists with distinct tags, arrivals arbitrarily interleaved "
-        "(C01_many_keys); nesting by composition of depth-1 scatter/gather pairs (C01_nested_two_levels); element 10 "
+        "(C01_many_keys); nesting by composition of depth-1 scatter/gather pairs (C01_nested_two_levels); ONE gather of "
+        "depth d over d scatter levels returns the flat list in compare_tags order, ragged shapes included, and with the "
+        "product size in the rectangular case (C01_gather_depth_d, C01_gather_depth_d_product); element 10 "
         "after element 9 (C01_numeric_order). The model is tied to /repo by driving the real ScatterStep and "
         "GatherStep token by token in the generated arrival order on an in-memory database and comparing every "
         "emitted token and the final status with the model evaluated by vm_compute, plus an oracle from the "
@@ -102,14 +104,15 @@ class C01(Prop):
     LEVEL_NOTE = (
         "Trusted: Coq kernel + vm_compute; hand-written model Gather/Model.v tied to the code only by the "
         "correspondence run; Python's sorted() modelled as stable insertion sort (for pairwise distinct tags any "
-        "correct sort gives the same list, proved); asyncio/database layers are exercised, not modelled. A depth-d>1 "
-        "gather (flat cross product) is in the model and in the correspondence but has no theorem.")
+        "correct sort gives the same list, proved); asyncio/database layers are exercised, not modelled. The tags of a "
+        "flat cross product are assumed to be t.i.j (they are produced by the cartesian combinator, C02's area).")
     TECHNIQUE = ("Coq proof (projection of the multi-key state machine onto one key, closed form on incomplete prefixes, "
                  "uniqueness of sorted permutations) + vm_compute correspondence against the real steps")
     RULE = ("eng: a real workflow scatter(s) -> concurrent element-wise step -> gather(s) run by StreamFlowExecutor under an "
             "event loop that permutes its ready queue with the case's seed (oracle only); rt: nested lists (1..3 scatter levels; lengths biased to 0,1,9..12, up to 40; scalar, list and object "
             "leaves) through real ScatterStep(s), an element-wise map and real GatherStep(s), arrivals = seeded shuffle "
-            "of element and size tokens with termination tokens at random legal positions; multi: 2..4 lists with "
+            "of element and size tokens with termination tokens at random legal positions; flat: 2..3 nested real scatters then ONE real GatherStep of depth 2..3 with the "
+            "element count as size (rectangular 3x4, 2x11, 4x3, 11x2, 2x2x3 ... and ragged shapes), shuffled arrivals; multi: 2..4 lists with "
             "distinct (possibly prefix-related) tags through one scatter and one gather, interleaved; raw: arbitrary "
             "arrival sequences at depth 1..3 (missing/wrong/duplicated sizes, duplicate tags, FAILED/SKIPPED "
             "terminations, unterminated ports) for model fidelity. Non-trivial = a list of >= 10 elements, or a "
@@ -191,6 +194,16 @@ class C01(Prop):
                     if t not in tags:
                         tags.append(t)
                 cases.append({"f": "multi", "lists": [{"tag": t, "value": self._value(rng, [14], ctr)} for t in tags],
+                              "map": rng.choice(["id", "wrap"]), "order": self._seed(rng)})
+            elif r < 0.82:
+                levels = rng.choice([2, 2, 2, 3])
+                caps = rng.choice([[3, 4], [2, 11], [4, 3], [11, 2]]) if levels == 2 else rng.choice([[2, 2, 3], [2, 3, 2]])
+                val = self._value(rng, caps, ctr)
+                if rng.random() < 0.6:      # rectangular, full size (what flat_crossproduct produces)
+                    def full(cs):
+                        return self._leaf(rng, ctr) if not cs else [full(cs[1:]) for _ in range(cs[0])]
+                    val = full(caps)
+                cases.append({"f": "flat", "tag": self._tag(rng), "levels": levels, "value": val,
                               "map": rng.choice(["id", "wrap"]), "order": self._seed(rng)})
             else:
                 cases.append(self._raw(rng))
@@ -402,6 +415,15 @@ class C01(Prop):
                 arr = place_terms(order_arrivals(items, c["order"]), c["order"])
                 outs = await self._gather(ctx, 1, arr, steps)
                 return {"steps": steps, "final": [self.sd.canon_tok(e, x) for x in outs]}
+            if c["f"] == "flat":     # d nested scatters, ONE gather of depth d, size token = number of elements
+                cur = [self._build(c["value"], c["levels"], c["tag"])]
+                for _ in range(c["levels"]):
+                    cur, _sizes = await self._scatter(ctx, cur, steps)
+                cur = [fmap(t) for t in cur]
+                items = [("E", t) for t in cur] + [("S", e.Token(len(cur), tag=c["tag"]))]
+                arr = place_terms(order_arrivals(items, c["order"]), c["order"])
+                outs = await self._gather(ctx, c["levels"], arr, steps)
+                return {"steps": steps, "final": [self.sd.canon_tok(e, x) for x in outs]}
             # rt
             levels = c["levels"]
             cur = [self._build(c["value"], levels, c["tag"])]
@@ -505,6 +527,16 @@ class C01(Prop):
             # pipeline ends SKIPPED because the scatter emitted no element, and still delivers the empty list)
             if last["status"] not in ("COMPLETED", "SKIPPED") or len(last["terms"]) != 1:
                 return ("clean-end", f"gather ended with status {last['status']}, termination tokens {last['terms']}")
+        if c["f"] == "flat":
+            def flatten(v, lv):
+                return [v] if lv == 0 else [y for x in v for y in flatten(x, lv - 1)]
+            want = [leaf_plain(x, c["map"] == "wrap") for x in flatten(c["value"], c["levels"])]
+            fin = o.get("final", [])
+            if len(fin) != 1 or fin[0][0] != "L" or fin[0][1] != c["tag"]:
+                return ("one-output", f"depth-{c['levels']} gather emitted {str(fin)[:300]} for one scattered list tagged {c['tag']}")
+            if tok_plain(fin[0]) != want:
+                return ("flat-order", f"depth-{c['levels']} gather returned {json.dumps(tok_plain(fin[0]))[:400]}, the "
+                                      f"scattered elements in order are {json.dumps(want)[:400]}")
         if c["f"] == "multi":
             wrap = c["map"] == "wrap"
             want = sorted(json.dumps([l["tag"], expected_plain(l["value"], 1, wrap)], sort_keys=True) for l in c["lists"])
@@ -545,7 +577,7 @@ class C01(Prop):
             def big(v, lv):
                 return lv > 0 and (len(v) >= 10 or any(big(x, lv - 1) for x in v))
             return big(c["value"], c["levels"]) or any(s != 0 for s in c["orders"])
-        if c["f"] in ("multi", "eng"):
+        if c["f"] in ("multi", "eng", "flat"):
             return True
         return len(c["arr"]) >= 3
 
@@ -553,6 +585,26 @@ class C01(Prop):
         return f"{c['f']}/{clause}"
 
     def shrink(self, c):
+        if c["f"] == "flat":
+            if c["map"] != "id":
+                yield {**c, "map": "id"}
+            if c["order"] not in (0, 1):
+                yield {**c, "order": 1}
+                yield {**c, "order": 0}
+            if c["tag"] != "0":
+                yield {**c, "tag": "0"}
+
+            def smaller(v, lv):
+                if lv == 0:
+                    return
+                for i in range(len(v)):
+                    yield v[:i] + v[i + 1:]
+                for i in range(len(v)):
+                    for x in smaller(v[i], lv - 1):
+                        yield v[:i] + [x] + v[i + 1:]
+            for v in smaller(c["value"], c["levels"]):
+                yield {**c, "value": v}
+            return
         if c["f"] in ("rt", "eng"):
             def smaller(v, lv):
                 if lv == 0:
